@@ -137,10 +137,19 @@ def run(cmd, cwd, timeout, env=ENV, limit_as=None):
     return rc, out.decode("utf-8", "replace"), round(time.time() - t0, 1)
 
 
+def base_commit():
+    """the commit of REPO the diffs were generated from (written by gen); every scratch worktree is made at it,
+    so a commit added to REPO while a run is in progress does not change what is measured"""
+    p = os.path.join(DIFFS, "BASE")
+    if os.path.exists(p):
+        return open(p).read().strip()
+    return "HEAD"
+
+
 def worktree(name):
     wt = os.path.join(SCRATCH, name)
     if not os.path.isdir(wt):
-        subprocess.run(["git", "-C", REPO, "worktree", "add", "-q", "--detach", wt, "HEAD"], check=True)
+        subprocess.run(["git", "-C", REPO, "worktree", "add", "-q", "--detach", wt, base_commit()], check=True)
     subprocess.run(["git", "-C", wt, "checkout", "-q", "--", "."], check=True)
     return wt
 
@@ -392,7 +401,12 @@ def gen(args):
     subprocess.run(["go", "build", "-o", os.path.join(SCRATCH, "mutate"), "."], cwd=os.path.join(VERIF, "tools", "mutate"), env=ENV, check=True)
     if os.path.isdir(DIFFS):
         shutil.rmtree(DIFFS)
-    subprocess.run([os.path.join(SCRATCH, "mutate"), "-repo", REPO, "-out", DIFFS], check=True)
+    # enumerate from a clean checkout of HEAD (not from REPO's working tree) and remember the commit
+    head = subprocess.run(["git", "-C", REPO, "rev-parse", "--short", "HEAD"], capture_output=True, text=True, check=True).stdout.strip()
+    os.makedirs(DIFFS)
+    open(os.path.join(DIFFS, "BASE"), "w").write(head + "\n")
+    wt = worktree("w0")
+    subprocess.run([os.path.join(SCRATCH, "mutate"), "-repo", wt, "-out", DIFFS], check=True)
 
 
 def demo(args):
